@@ -1,7 +1,9 @@
 import DdsModel.Drv.Util
 import DdsModel.QuantFmt
 import DdsModel.QuantF32
-/-! Driver section of C12: same case lines as harness/src/c12.rs, prints `ok <len> <fnv64>`. -/
+import DdsModel.EncCarrier
+/-! Driver section of C12: same case lines as harness/src/c12.rs, prints `ok <len> <fnv64>`
+(`carrier` lines: `c <hex bytes>` from `EncCarrier.rowBytes`). -/
 namespace Dds.Drv.C12
 open Dds.Quant
 
@@ -121,8 +123,43 @@ def showResult (f : Fmt) (img : Img) (intLine : Bool) : String :=
 
 def b2n (b : Bool) : Nat := if b then 1 else 0
 
+/-! ### `carrier <fmt> <u8|u16|f32> <g|a|rgb|rgba> <hex,…>`: one row of pixels in ONE colour format through the
+bit-level conversion chain of `EncCarrier.lean` (no tolerance, no masking) -/
+
+def carrierPix (ch : String) : List Nat → Option (List EncCarrier.Pix)
+  | [] => some []
+  | l =>
+    match ch, l with
+    | "g", g :: rest => (carrierPix ch rest).map (EncCarrier.Pix.gray g :: ·)
+    | "a", a :: rest => (carrierPix ch rest).map (EncCarrier.Pix.alpha a :: ·)
+    | "rgb", r :: g :: b :: rest => (carrierPix ch rest).map (EncCarrier.Pix.rgb r g b :: ·)
+    | "rgba", r :: g :: b :: a :: rest => (carrierPix ch rest).map (EncCarrier.Pix.rgba r g b a :: ·)
+    | _, _ => none
+termination_by l => l.length
+decreasing_by all_goals simp_wf <;> omega
+
+def carrierLine (name precS chS vals : String) : String :=
+  let prec : Option (Prec × Nat) := match precS with
+    | "u8" => some (.u8, 256) | "u16" => some (.u16, 65536) | "f32" => some (.f32, 2 ^ 32) | _ => none
+  let ch : Option Chan := match chS with
+    | "g" => some .gray | "a" => some .alpha | "rgb" => some .rgb | "rgba" => some .rgba | _ => none
+  match prec, ch, (vals.splitOn ",").mapM (fun h => if h.length > 8 then none else hex? h) with
+  | some (p, bound), some c, some vs =>
+    if ¬ EncCarrier.bitLevelNames.contains name ∨ vs.any (· ≥ bound) then "bad-case"
+    else
+      match carrierPix chS vs with
+      | some row =>
+        if row.isEmpty ∨ row.length > 64 then "bad-case"
+        else
+          match EncCarrier.rowBytes EncCarrier.extZero name p c row with
+          | some bytes => "c " ++ String.join (bytes.map (hexOf · 2))
+          | none => "panic"
+      | none => "bad-case"
+  | _, _, _ => "bad-case"
+
 def runC12 (line : String) : String :=
   match toks line with
+  | ["carrier", name, precS, chS, vals] => carrierLine name precS chS vals
   | ["sup", name] =>
     match formats.find? (·.name = name) with
     | none => "bad-case"
